@@ -688,6 +688,9 @@ func runSpec(prop string) int {
 		tier = "quick"
 	}
 	spec := getSpec(prop, tier)
+	if d, err := strconv.Atoi(os.Getenv("VERIF_DEPTH")); err == nil && d > 0 {
+		spec.Depth = d
+	}
 	rep := ev.NewReport(prop, "model_checking")
 	p := &pool.Pool{Handler: "seqmc", N: nWorkers(), Timeout: 25 * time.Second, MemMB: 6144}
 	deadline := time.Now().Add(spec.Budget)
